@@ -210,14 +210,15 @@ func (r *Reader) GetObject(objNum int) (core.Object, error) {
 
 // getUncompressedObject reads an object directly from the file
 func (r *Reader) getUncompressedObject(objNum int, entry *core.XRefEntry) (core.Object, error) {
-	// Seek to object position
-	_, err := r.file.Seek(entry.Offset, io.SeekStart)
-	if err != nil {
-		return nil, fmt.Errorf("failed to seek to object %d: %w", objNum, err)
+	if entry.Offset < 0 || entry.Offset >= r.fileSize {
+		return nil, fmt.Errorf("object %d: offset %d outside file", objNum, entry.Offset)
 	}
 
-	// Parse the indirect object
-	parser := core.NewParser(r.file)
+	// Parse the indirect object through its own positional view of the file:
+	// resolving an indirect /Length re-enters GetObject while this parse is
+	// suspended, and must not move a shared file offset under its buffer.
+	section := io.NewSectionReader(r.file, entry.Offset, r.fileSize-entry.Offset)
+	parser := core.NewParser(section)
 	parser.SetReferenceResolver(r)
 	indObj, err := parser.ParseIndirectObject()
 	if err != nil {
